@@ -165,5 +165,589 @@ theorem effective_ok {env : Env} {f : FileCfg} {c : CliOpts} {e : Effective} (h 
             cases h
             exact ⟨by simpa using hn, by simpa using hc, cfg, s, i, hcfg, hs, hi, rfl⟩
 
+/-! ### `cli_wins`: a present option decides its key -/
+
+/-- For every overridable key: if the option is present, the effective value is the option's value
+    (for target lists, lookup type and group-by: its parsed form; for the price file: the path as the OS
+    resolves it, whenever a price file is read at all). -/
+theorem cli_wins {env : Env} {f : FileCfg} {c : CliOpts} {e : Effective} (h : effective env f c = .ok e) :
+    (∀ v, c.strict = some v → e.strict = v) ∧
+    (∀ v, c.audit = some v → e.audit = v) ∧
+    (∀ v, c.reports = some v → toReportTargets v = .ok e.reports) ∧
+    (∀ v, c.exports = some v → toExportTargets v = .ok e.exports) ∧
+    (∀ v, c.reportCommodity = some v → e.commodity = some v) ∧
+    (∀ v, c.lookupType = some v → Lookup.parse v = some e.lookup) ∧
+    (∀ v, c.pricedb = some v → e.lookup ≠ .none → e.priceDb = some (atCwd env v)) ∧
+    (∀ v, c.groupBy = some v → GroupBy.parse v = some e.groupBy) := by
+  obtain ⟨_, _, cfg, s, i, hcfg, hs, hi, rfl⟩ := effective_ok h
+  obtain ⟨pl, h1, h2, h3, h4, h5, h6, h7, h8, h9, h10, h11, h12, h13, h14⟩ := settingsFrom_ok hs
+  simp only [getOverlaps] at h1 h2 h3 h4 h5 h8 h9 h14
+  refine ⟨?_, ?_, ?_, ?_, ?_, ?_, ?_, ?_⟩
+  · intro v hv; simp [mkEffective, h8, hv]
+  · intro v hv; simp [mkEffective, h9, hv]
+  · intro v hv; simpa [mkEffective, reportsOf, hv] using h1
+  · intro v hv; simpa [mkEffective, exportsOf, hv] using h2
+  · intro v hv
+    simp only [mkEffective]
+    simp only [reportCommodityOf, hv] at h4
+    split at h4
+    · rename_i n l hn
+      have h4 := Outcome.ok.inj h4
+      rw [← h4]
+      unfold innerGetOrCreateCommodity at hn
+      (repeat' split at hn) <;> first | (cases hn; done) | (cases hn; rfl)
+    · cases h4
+    · cases h4
+  · intro v hv
+    simp only [mkEffective]
+    simp only [lookupOf, hv] at h3
+    split at h3
+    · rename_i lt hlt; cases h3; exact hlt
+    · cases h3
+  · intro v hv hne
+    simp only [mkEffective] at hne ⊢
+    have := (h14 hne).1
+    simpa [dbPathOf, hv] using this
+  · intro v hv
+    simp only [mkEffective]
+    simp only [groupByOf, hv] at h5
+    split at h5
+    · rename_i g hg; cases h5; exact hg
+    · cases h5
+
+/-! ### `file_applies`: an absent option leaves the key to the file -/
+
+theorem file_applies {env : Env} {f : FileCfg} {c : CliOpts} {e : Effective} (h : effective env f c = .ok e) :
+    (c.strict = none → e.strict = f.strict) ∧
+    (c.audit = none → e.audit = f.audit) ∧
+    (c.reports = none → toReportTargets f.targets = .ok e.reports) ∧
+    (c.exports = none → toExportTargets f.exportTargets = .ok e.exports) ∧
+    (c.reportCommodity = none → e.commodity = f.commodity) ∧
+    (c.lookupType = none → ∃ db, priceFrom env f.price = .ok (db, e.lookup)) ∧
+    (c.pricedb = none → e.lookup ≠ .none → ∃ lt, priceFrom env f.price = .ok (e.priceDb.getD "", lt) ∧ e.priceDb.isSome) ∧
+    (c.groupBy = none → GroupBy.parse f.groupBy = some e.groupBy) := by
+  obtain ⟨_, _, cfg, s, i, hcfg, hs, hi, rfl⟩ := effective_ok h
+  obtain ⟨pl, h1, h2, h3, h4, h5, h6, h7, h8, h9, h10, h11, h12, h13, h14⟩ := settingsFrom_ok hs
+  obtain ⟨st, g, db, lt, rts, gb, ets, c1, c2, c3, c4, c5, c6, rfl⟩ := configFrom_ok hcfg
+  simp only [getOverlaps] at h1 h2 h3 h4 h5 h8 h9 h14
+  refine ⟨?_, ?_, ?_, ?_, ?_, ?_, ?_, ?_⟩
+  · intro hv; simp [mkEffective, h8, hv]
+  · intro hv; simp [mkEffective, h9, hv]
+  · intro hv
+    simp only [reportsOf, hv, Outcome.ok.injEq] at h1
+    simp only [mkEffective]; rw [← h1]; exact c4
+  · intro hv
+    simp only [exportsOf, hv, Outcome.ok.injEq] at h2
+    simp only [mkEffective]; rw [← h2]; exact c6
+  · intro hv
+    simp only [mkEffective]
+    simp only [reportCommodityOf, hv] at h4
+    split at h4
+    · rename_i hc; have h4 := Outcome.ok.inj h4; rw [← h4]; exact hc.symm
+    · rename_i n hc
+      split at h4
+      · rename_i m l hn
+        have h4 := Outcome.ok.inj h4
+        rw [hc, ← h4]
+        unfold innerGetOrCreateCommodity at hn
+        (repeat' split at hn) <;> first | (cases hn; done) | (cases hn; rfl)
+      · cases h4
+      · cases h4
+  · intro hv
+    simp only [lookupOf, hv, Outcome.ok.injEq] at h3
+    simp only [mkEffective]; rw [← h3]; exact ⟨db, c3⟩
+  · intro hv hne
+    simp only [mkEffective] at hne ⊢
+    have := (h14 hne).1
+    simp only [dbPathOf, hv] at this
+    rw [this]; exact ⟨lt, by simpa using c3, rfl⟩
+  · intro hv
+    simp only [groupByOf, hv, Outcome.ok.injEq] at h5
+    simp only [mkEffective]; rw [← h5]; exact c5
+
+/-! ### `selectors` -/
+
+/-- the documented rule: the command-line list (its empty patterns dropped: `--accounts ""` is the empty
+    list) replaces everything; otherwise the per-report list; otherwise `report.accounts`; otherwise empty -/
+def selSpec (cli : Option (List String)) (own global : Option (List String)) : List String :=
+  match cli with
+  | some l => l.filter (fun s => s ≠ "")
+  | none => own.getD (global.getD [])
+
+theorem selectors {env : Env} {f : FileCfg} {c : CliOpts} {e : Effective} (h : effective env f c = .ok e) :
+    e.selBalance = selSpec c.accounts f.selBalance f.selGlobal ∧
+    e.selBalGrp = selSpec c.accounts f.selBalGrp f.selGlobal ∧
+    e.selRegister = selSpec c.accounts f.selRegister f.selGlobal ∧
+    e.selEquity = selSpec c.accounts f.selEquity f.selGlobal := by
+  obtain ⟨_, _, cfg, s, i, hcfg, hs, hi, rfl⟩ := effective_ok h
+  obtain ⟨pl, h1, h2, h3, h4, h5, h6, h7, h8, h9, h10, _⟩ := settingsFrom_ok hs
+  obtain ⟨st, g, db, lt, rts, gb, ets, c1, c2, c3, c4, c5, c6, rfl⟩ := configFrom_ok hcfg
+  simp only [getOverlaps, accountOverlapOf] at h10
+  have key : ∀ own : Option (List String),
+      getAccountSelector s (selFrom own f.selGlobal) = selSpec c.accounts own f.selGlobal := by
+    intro own
+    unfold getAccountSelector selSpec selFrom
+    rw [h10]
+    cases c.accounts <;> cases own <;> cases f.selGlobal <;> rfl
+  exact ⟨key _, key _, key _, key _⟩
+
+/-- the command-line list replaces the global, every per-report and the equity selector -/
+theorem selectors_cli_replaces_all {env : Env} {f : FileCfg} {c : CliOpts} {e : Effective} {l : List String}
+    (h : effective env f c = .ok e) (hc : c.accounts = some l) :
+    e.selBalance = l.filter (fun s => s ≠ "") ∧ e.selBalGrp = l.filter (fun s => s ≠ "") ∧
+    e.selRegister = l.filter (fun s => s ≠ "") ∧ e.selEquity = l.filter (fun s => s ≠ "") := by
+  obtain ⟨h1, h2, h3, h4⟩ := selectors h
+  simp only [selSpec, hc] at h1 h2 h3 h4
+  exact ⟨h1, h2, h3, h4⟩
+
+/-- the documented empty selector: `--accounts ""` selects all accounts in every report and in the equity export -/
+theorem selectors_empty_means_all {env : Env} {f : FileCfg} {c : CliOpts} {e : Effective}
+    (h : effective env f c = .ok e) (hc : c.accounts = some [""]) :
+    selectsAll e.selBalance = true ∧ selectsAll e.selBalGrp = true ∧
+    selectsAll e.selRegister = true ∧ selectsAll e.selEquity = true := by
+  obtain ⟨h1, h2, h3, h4⟩ := selectors_cli_replaces_all h hc
+  rw [h1, h2, h3, h4]; decide
+
+/-- in the file, a per-report selector overrides the global one (and the global one applies where there is none) -/
+theorem selectors_per_report_over_global {env : Env} {f : FileCfg} {c : CliOpts} {e : Effective}
+    (h : effective env f c = .ok e) (hc : c.accounts = none) :
+    (∀ l, f.selBalance = some l → e.selBalance = l) ∧ (f.selBalance = none → e.selBalance = f.selGlobal.getD []) ∧
+    (∀ l, f.selBalGrp = some l → e.selBalGrp = l) ∧ (f.selBalGrp = none → e.selBalGrp = f.selGlobal.getD []) ∧
+    (∀ l, f.selRegister = some l → e.selRegister = l) ∧ (f.selRegister = none → e.selRegister = f.selGlobal.getD []) ∧
+    (∀ l, f.selEquity = some l → e.selEquity = l) ∧ (f.selEquity = none → e.selEquity = f.selGlobal.getD []) := by
+  obtain ⟨h1, h2, h3, h4⟩ := selectors h
+  simp only [selSpec, hc] at h1 h2 h3 h4
+  refine ⟨?_, ?_, ?_, ?_, ?_, ?_, ?_, ?_⟩ <;> intros <;> simp_all
+
+/-! ### `input_choice`: which input wins -/
+
+/-- the selector given on the command line (`--input.git.commit` | `--input.git.ref`) -/
+def gitSelSpec (c : CliOpts) : Option GitSel :=
+  match c.inputGitCommit, c.inputGitRef with
+  | some k, _ => some (.commitId k)
+  | none, some r => some (.reference r)
+  | none, none => none
+
+/-- the file's storage of the named type: `fs` = `[path/]dir` + suffix, `git` = `repo` (else the old key
+    `repository`) + dir + `ref` (or the given selector) + suffix; paths relative to the configuration file,
+    one leading `.` of the suffix dropped -/
+def fileInputSpec (env : Env) (f : FileCfg) (storage : String) (sel : Option GitSel) : Option Input :=
+  match Storage.parse storage with
+  | some .fs => f.fs.map fun r => .fs (getAbsPath env (fsFrom r).1) (stripDot r.suffix)
+  | some .git =>
+    match f.git with
+    | none => none
+    | some g =>
+      match g.repo, g.repository with
+      | some repo, _ => some (.git (getAbsPath env repo) g.dir (sel.getD (.reference g.ref)) (stripDot g.suffix))
+      | none, some repo => some (.git (getAbsPath env repo) g.dir (sel.getD (.reference g.ref)) (stripDot g.suffix))
+      | none, none => none
+  | none => none
+
+/-- the table: `--input.file` | `--input.fs.dir`+`ext` | `--input.git.repository`+`dir`+`ref|commit` |
+    `ref|commit` alone (the file's git storage at that revision) | `--input.storage` | nothing (the file's storage) -/
+def inputSpec (env : Env) (f : FileCfg) (c : CliOpts) : Option Input :=
+  match c.inputFile with
+  | some p => some (.file (atCwd env p))
+  | none =>
+    match c.inputFsDir, c.inputFsExt with
+    | some d, some x => some (.fs (atCwd env d) (stripDot x))
+    | some _, none => none
+    | none, _ =>
+      match c.inputGitRepo, c.inputGitDir with
+      | some r, some d => (gitSelSpec c).map fun sel => .git (atCwd env r) d sel "txn"
+      | some _, none => none
+      | none, _ =>
+        match gitSelSpec c with
+        | some sel => fileInputSpec env f "git" (some sel)
+        | none => fileInputSpec env f (c.inputStorage.getD f.storage) none
+
+theorem inputOfStorage_spec {env : Env} {f : FileCfg} {cfg : Cfg} {i : Input}
+    (hcfg : configFrom env f = .ok cfg) (name : String) (st : Storage) (hst : Storage.parse name = some st)
+    (h : inputOfStorage env cfg st = .ok i) :
+    fileInputSpec env f name none = some i := by
+  obtain ⟨st0, g, db, lt, rts, gb, ets, c1, c2, c3, c4, c5, c6, rfl⟩ := configFrom_ok hcfg
+  unfold fileInputSpec
+  rw [hst]
+  unfold inputOfStorage at h
+  cases st with
+  | fs =>
+    simp only at h ⊢
+    cases hfs : f.fs with
+    | none => simp [hfs] at h
+    | some r =>
+      simp only [hfs, Option.map_some] at h ⊢
+      cases h
+      simp [fsFrom]
+      cases r.path <;> rfl
+  | git =>
+    simp only at h ⊢
+    unfold gitOptFrom at c2
+    cases hg : f.git with
+    | none => simp [hg] at c2; cases c2; simp at h
+    | some r =>
+      simp only [hg] at c2
+      unfold gitFrom at c2
+      cases hr : r.repo with
+      | some x =>
+        simp only [hr] at c2; cases c2
+        simp at h; cases h; simp [hr]
+      | none =>
+        cases hr2 : r.repository with
+        | some x =>
+          simp only [hr, hr2] at c2; cases c2
+          simp at h; cases h; simp [hr, hr2]
+        | none => simp [hr, hr2] at c2
+
+theorem getInputSettings_spec {env : Env} {f : FileCfg} {cfg : Cfg} {i : Input}
+    (hcfg : configFrom env f = .ok cfg) (storage : Option String)
+    (h : getInputSettings env cfg storage = .ok i) :
+    fileInputSpec env f (storage.getD f.storage) none = some i := by
+  have hcfg' := hcfg
+  obtain ⟨st0, g, db, lt, rts, gb, ets, c1, c2, c3, c4, c5, c6, hc⟩ := configFrom_ok hcfg
+  unfold getInputSettings storageTypeOf at h
+  cases storage with
+  | none =>
+    simp only [Option.getD_none] at h ⊢
+    have hs : cfg.storage = st0 := by rw [hc]
+    rw [hs] at h
+    exact inputOfStorage_spec hcfg' f.storage st0 c1 h
+  | some s =>
+    simp only [Option.getD_some] at h ⊢
+    cases hp : Storage.parse s with
+    | none => simp [hp] at h
+    | some st =>
+      rw [hp] at h
+      exact inputOfStorage_spec hcfg' s st hp h
+
+theorem getGitSelector_spec {c : CliOpts} {gs : Option GitSel} (h : getGitSelector c = .ok gs) :
+    gitSelSpec c = gs := by
+  unfold getGitSelector at h
+  unfold gitSelSpec
+  cases hk : c.inputGitCommit <;> cases hr : c.inputGitRef <;> simp only [hk, hr] at h ⊢ <;> cases h <;> rfl
+
+theorem fileInputSpec_git_sel {env : Env} {f : FileCfg} {i : Input} (sel : GitSel)
+    (h : fileInputSpec env f "git" none = some i) :
+    ∃ repo dir s0 ext, i = .git repo dir s0 ext ∧
+      fileInputSpec env f "git" (some sel) = some (.git repo dir sel ext) := by
+  unfold fileInputSpec at h ⊢
+  have hp : Storage.parse "git" = some .git := by decide
+  rw [hp] at h ⊢
+  simp only at h ⊢
+  cases hg : f.git with
+  | none => simp [hg] at h
+  | some g =>
+    simp only [hg] at h ⊢
+    cases hr : g.repo with
+    | some x => simp only [hr] at h ⊢; cases h; exact ⟨_, _, _, _, rfl, rfl⟩
+    | none =>
+      cases hr2 : g.repository with
+      | some x => simp only [hr, hr2] at h ⊢; cases h; exact ⟨_, _, _, _, rfl, rfl⟩
+      | none => simp [hr, hr2] at h
+
+theorem getInputType_spec {env : Env} {f : FileCfg} {c : CliOpts} {cfg : Cfg} {i : Input}
+    (hcfg : configFrom env f = .ok cfg) (hi : getInputType env cfg c = .ok i) :
+    inputSpec env f c = some i := by
+  unfold getInputType at hi
+  cases hsel : getGitSelector c with
+  | err => rw [hsel] at hi; cases hi
+  | undef => rw [hsel] at hi; cases hi
+  | ok gs =>
+    have hgs := getGitSelector_spec hsel
+    rw [hsel] at hi
+    simp only at hi
+    unfold inputSpec
+    cases hf : c.inputFile with
+    | some p => simp only [hf] at hi ⊢; cases hi; rfl
+    | none =>
+      simp only [hf] at hi ⊢
+      cases hd : c.inputFsDir with
+      | some d =>
+        cases hx : c.inputFsExt with
+        | some x => simp only [hd, hx] at hi ⊢; cases hi; rfl
+        | none => simp only [hd, hx] at hi; cases hi
+      | none =>
+        simp only [hd] at hi ⊢
+        cases hrepo : c.inputGitRepo with
+        | some r =>
+          cases hdir : c.inputGitDir with
+          | some d =>
+            simp only [hrepo, hdir] at hi ⊢
+            rw [hgs]
+            cases gs with
+            | some sel => simp only at hi; cases hi; rfl
+            | none => simp only at hi; cases hi
+          | none =>
+            simp only [hrepo, hdir] at hi
+            cases gs <;> (try simp only at hi) <;> cases hi
+        | none =>
+          simp only [hrepo] at hi ⊢
+          rw [hgs]
+          cases gs with
+          | none => exact getInputSettings_spec hcfg _ hi
+          | some sel =>
+            try simp only at hi ⊢
+            cases hg : getInputSettings env cfg (some "git") with
+            | err => rw [hg] at hi; cases hi
+            | undef => rw [hg] at hi; cases hi
+            | ok i0 =>
+              have h0 := getInputSettings_spec hcfg (some "git") hg
+              simp only [Option.getD_some] at h0
+              obtain ⟨repo, dir, s0, ext, rfl, hsp⟩ := fileInputSpec_git_sel sel h0
+              rw [hg] at hi
+              simp only at hi
+              cases hi
+              exact hsp
+
+theorem input_choice {env : Env} {f : FileCfg} {c : CliOpts} {e : Effective} (h : effective env f c = .ok e) :
+    inputSpec env f c = some e.input := by
+  obtain ⟨_, hclap, cfg, s, i, hcfg, hs, hi, rfl⟩ := effective_ok h
+  exact getInputType_spec hcfg hi
+
+/-! ### `contradictions`: what is rejected -/
+
+/-- option sets excluded by the declared clap attributes (exit status 2) -/
+inductive Rejected (c : CliOpts) : Prop where
+  | file_with_storage : c.inputFile.isSome = true → c.inputStorage.isSome = true → Rejected c
+  | file_with_fs : c.inputFile.isSome = true → fsAny c = true → Rejected c
+  | file_with_git : c.inputFile.isSome = true → gitAny c = true → Rejected c
+  | storage_with_fs : c.inputStorage.isSome = true → fsAny c = true → Rejected c
+  | storage_with_git : c.inputStorage.isSome = true → gitAny c = true → Rejected c
+  | fs_with_git : fsAny c = true → gitAny c = true → Rejected c
+  | fs_dir_without_ext : c.inputFsDir.isSome = true → c.inputFsExt = none → Rejected c
+  | fs_ext_without_dir : c.inputFsExt.isSome = true → c.inputFsDir = none → Rejected c
+  | git_repo_without_dir : c.inputGitRepo.isSome = true → c.inputGitDir = none → Rejected c
+  | git_repo_without_revision : c.inputGitRepo.isSome = true → c.inputGitRef = none → c.inputGitCommit = none → Rejected c
+  | git_dir_without_repo : c.inputGitDir.isSome = true → c.inputGitRepo = none → Rejected c
+  | git_ref_and_commit : c.inputGitRef.isSome = true → c.inputGitCommit.isSome = true → Rejected c
+  | bad_storage (s : String) : c.inputStorage = some s → Storage.parse s = none → Rejected c
+  | bad_report (l : List String) (s : String) : c.reports = some l → s ∈ l → ReportT.parse s = none → Rejected c
+  | bad_export (l : List String) (s : String) : c.exports = some l → s ∈ l → ExportT.parse s = none → Rejected c
+  | bad_group_by (s : String) : c.groupBy = some s → GroupBy.parse s = none → Rejected c
+  | bad_lookup (s : String) : c.lookupType = some s → Lookup.parse s = none → Rejected c
+  | no_reports : c.reports = some [] → Rejected c
+  | no_exports : c.exports = some [] → Rejected c
+  | no_accounts : c.accounts = some [] → Rejected c
+
+theorem Storage.parse_none {s : String} (h : Storage.parse s = none) : s ≠ "fs" ∧ s ≠ "git" := by
+  unfold Storage.parse at h
+  (repeat' split at h) <;> simp_all
+
+theorem ReportT.parse_none {s : String} (h : ReportT.parse s = none) :
+    s ≠ "register" ∧ s ≠ "balance" ∧ s ≠ "balance-group" := by
+  unfold ReportT.parse at h
+  (repeat' split at h) <;> simp_all
+
+theorem ExportT.parse_none {s : String} (h : ExportT.parse s = none) : s ≠ "identity" ∧ s ≠ "equity" := by
+  unfold ExportT.parse at h
+  (repeat' split at h) <;> simp_all
+
+theorem GroupBy.parse_none {s : String} (h : GroupBy.parse s = none) :
+    s ≠ "year" ∧ s ≠ "month" ∧ s ≠ "date" ∧ s ≠ "iso-week" ∧ s ≠ "iso-week-date" := by
+  unfold GroupBy.parse at h
+  (repeat' split at h) <;> simp_all
+
+theorem rejected_clap {c : CliOpts} (h : Rejected c) : clapAccepts c = false := by
+  unfold clapAccepts
+  cases h with
+  | file_with_storage h1 h2 => simp [clapConflicts, h1, h2]
+  | file_with_fs h1 h2 => simp [clapConflicts, h1, h2]
+  | file_with_git h1 h2 => simp [clapConflicts, h1, h2]
+  | storage_with_fs h1 h2 => simp [clapConflicts, h1, h2]
+  | storage_with_git h1 h2 => simp [clapConflicts, h1, h2]
+  | fs_with_git h1 h2 =>
+    unfold fsAny at h1
+    cases hd : c.inputFsDir with
+    | some d => simp [clapConflicts, hd, h2]
+    | none =>
+      simp only [hd, Option.isSome_none, Bool.false_or] at h1
+      simp [clapRequires, hd, h1]
+  | fs_dir_without_ext h1 h2 => simp [clapRequires, h1, h2]
+  | fs_ext_without_dir h1 h2 => simp [clapRequires, h1, h2]
+  | git_repo_without_dir h1 h2 => simp [clapRequires, h1, h2]
+  | git_repo_without_revision h1 h2 h3 => simp [clapRequires, h1, h2, h3]
+  | git_dir_without_repo h1 h2 => simp [clapRequires, h1, h2]
+  | git_ref_and_commit h1 h2 => simp [clapConflicts, h1, h2]
+  | bad_storage s h1 h2 =>
+    obtain ⟨n1, n2⟩ := Storage.parse_none h2
+    simp [clapValues, inSet, h1, n1, n2]
+  | bad_report l s h1 h2 h3 =>
+    obtain ⟨n1, n2, n3⟩ := ReportT.parse_none h3
+    have hall : l.all (["register", "balance", "balance-group"].contains) = false := by
+      rw [List.all_eq_false]; exact ⟨s, h2, by simp [n1, n2, n3]⟩
+    simp [clapValues, listIn, h1, hall]
+  | bad_export l s h1 h2 h3 =>
+    obtain ⟨n1, n2⟩ := ExportT.parse_none h3
+    have hall : l.all (["identity", "equity"].contains) = false := by
+      rw [List.all_eq_false]; exact ⟨s, h2, by simp [n1, n2]⟩
+    simp [clapValues, listIn, h1, hall]
+  | bad_group_by s h1 h2 =>
+    obtain ⟨n1, n2, n3, n4, n5⟩ := GroupBy.parse_none h2
+    simp [clapValues, inSet, h1, n1, n2, n3, n4, n5]
+  | bad_lookup s h1 h2 => simp [clapValues, h1, h2]
+  | no_reports h1 => simp [clapValues, listIn, h1]
+  | no_exports h1 => simp [clapValues, listIn, h1]
+  | no_accounts h1 => simp [clapValues, h1]
+
+theorem getInputSettings_ne_undef (env : Env) (cfg : Cfg) (st : Option String) :
+    getInputSettings env cfg st ≠ .undef := by
+  unfold getInputSettings inputOfStorage
+  (repeat' split) <;> simp
+
+/-- the `expect`s / `panic!` of `get_input_type` are excluded by the clap attributes -/
+theorem getInputType_ne_undef {env : Env} {cfg : Cfg} {c : CliOpts} (hclap : clapAccepts c = true) :
+    getInputType env cfg c ≠ .undef := by
+  intro hu
+  unfold clapAccepts at hclap
+  simp only [Bool.and_eq_true, Bool.not_eq_true'] at hclap
+  obtain ⟨⟨_, hconf⟩, hreq⟩ := hclap
+  unfold clapConflicts at hconf
+  unfold clapRequires at hreq
+  unfold getInputType at hu
+  cases hsel : getGitSelector c with
+  | err => rw [hsel] at hu; cases hu
+  | undef =>
+    unfold getGitSelector at hsel
+    cases hk : c.inputGitCommit <;> cases hr : c.inputGitRef <;> simp only [hk, hr] at hsel <;> try (cases hsel; done)
+    simp [hk, hr] at hconf
+  | ok gs =>
+    have hgs := getGitSelector_spec hsel
+    rw [hsel] at hu
+    simp only at hu
+    cases hf : c.inputFile with
+    | some p => simp only [hf] at hu; cases hu
+    | none =>
+      simp only [hf] at hu
+      cases hd : c.inputFsDir with
+      | some d =>
+        cases hx : c.inputFsExt with
+        | some x => simp only [hd, hx] at hu; cases hu
+        | none => simp [hd, hx] at hreq
+      | none =>
+        simp only [hd] at hu
+        cases hrepo : c.inputGitRepo with
+        | some r =>
+          cases hdir : c.inputGitDir with
+          | none => simp [hrepo, hdir] at hreq
+          | some d =>
+            cases gs with
+            | some sel => simp only [hrepo, hdir] at hu; cases hu
+            | none =>
+              unfold gitSelSpec at hgs
+              cases hk : c.inputGitCommit <;> cases hr : c.inputGitRef <;> simp only [hk, hr] at hgs <;>
+                try (cases hgs; done)
+              simp [hrepo, hdir, hk, hr] at hreq
+        | none =>
+          simp only [hrepo] at hu
+          cases gs with
+          | none => simp only at hu; exact getInputSettings_ne_undef _ _ _ hu
+          | some sel =>
+            simp only at hu
+            cases hg : getInputSettings env cfg (some "git") with
+            | undef => exact getInputSettings_ne_undef _ _ _ hg
+            | err => rw [hg] at hu; cases hu
+            | ok i0 => rw [hg] at hu; cases i0 <;> simp only at hu <;> cases hu
+
+theorem settingsFrom_ne_undef (env : Env) (cfg : Cfg) (ov : Overlaps) : settingsFrom env cfg ov ≠ .undef := by
+  intro hu
+  unfold settingsFrom at hu
+  (repeat' split at hu) <;> try (cases hu; done)
+  rename_i hpl
+  unfold priceLookupFrom at hpl
+  (repeat' split at hpl) <;> cases hpl
+
+/-- inside the domain of the model every run is accepted or rejected: no `undef` -/
+theorem no_undef {env : Env} {f : FileCfg} {c : CliOpts} (hdom : namesSimple f c = true) :
+    effective env f c ≠ .undef := by
+  intro h
+  unfold effective at h
+  simp only [hdom, Bool.not_true, Bool.false_eq_true, ↓reduceIte] at h
+  split at h
+  · cases h
+  · rename_i hclap
+    split at h
+    · cases h
+    · rename_i hu; exact configFrom_ne_undef _ _ hu
+    · rename_i cfg hcfg
+      split at h
+      · cases h
+      · rename_i hu; exact settingsFrom_ne_undef _ _ _ hu
+      · split at h
+        · cases h
+        · rename_i hu; exact getInputType_ne_undef (by simpa using hclap) hu
+        · cases h
+
+theorem innerGetOrCreateCommodity_ok {comms : List String} {pe strict : Bool} {x m : String} {l : List String}
+    (h : innerGetOrCreateCommodity comms pe strict x = .ok (m, l)) :
+    m = x ∧ (strict = true → x ≠ "" → x ∈ comms) := by
+  unfold innerGetOrCreateCommodity at h
+  (repeat' split at h) <;> first | (cases h; done) | (cases h; simp_all)
+
+/-- in strict mode the report commodity (from either source) must be a declared commodity -/
+theorem reportCommodityOf_strict {cfg : Cfg} {ov : Option String} {n : String}
+    (h : reportCommodityOf cfg true ov = .ok (some n)) (hne : n ≠ "") : n ∈ cfg.commodities := by
+  unfold reportCommodityOf at h
+  (repeat' split at h) <;> try (cases h; done)
+  all_goals
+    rename_i m l hx
+    have h := Outcome.ok.inj h
+    cases h
+    obtain ⟨rfl, hin⟩ := innerGetOrCreateCommodity_ok hx
+    exact hin rfl hne
+
+theorem priceLookupFrom_ok {env : Env} {lt : Lookup} {given : Option String} {pl : PriceLookup}
+    (h : priceLookupFrom env lt given = .ok pl) :
+    (given.isSome = true ↔ lt = .givenTime) ∧
+    (∀ ts, given = some ts → env.tsOk ts = true ∧ pl = .givenTime ts) := by
+  cases lt <;> cases given <;> simp [priceLookupFrom] at h ⊢
+  split at h
+  · rename_i hts; cases h; exact ⟨hts, rfl⟩
+  · cases h
+
+/-- what every accepted run satisfies: the consistency rules of `Settings::try_from` -/
+theorem accepted_consistent {env : Env} {f : FileCfg} {c : CliOpts} {e : Effective} (h : effective env f c = .ok e) :
+    (c.priceBefore.isSome = true ↔ e.lookup = .givenTime) ∧
+    (∀ ts, c.priceBefore = some ts → env.tsOk ts = true ∧ e.priceLookup = .givenTime ts) ∧
+    (e.lookup ≠ .none → e.commodity.isSome = true ∧ ∃ p, e.priceDb = some p ∧ env.dbOk p e.strict = true) ∧
+    (e.strict = true → ExportT.equity ∈ e.exports → f.equityAccount ∈ f.accounts) ∧
+    (e.strict = true → ∀ n, e.commodity = some n → n ∈ f.commodities) := by
+  obtain ⟨hsimple, _, cfg, s, i, hcfg, hs, hi, rfl⟩ := effective_ok h
+  obtain ⟨pl, h1, h2, h3, h4, h5, h6, h7, h8, h9, h10, h11, h12, h13, h14⟩ := settingsFrom_ok hs
+  obtain ⟨st, g, db, lt, rts, gb, ets, c1, c2, c3, c4, c5, c6, rfl⟩ := configFrom_ok hcfg
+  simp only [getOverlaps] at h4 h6 h8
+  simp only [mkEffective]
+  refine ⟨(priceLookupFrom_ok h6).1, ?_, ?_, ?_, ?_⟩
+  · intro ts hts
+    obtain ⟨a, b⟩ := (priceLookupFrom_ok h6).2 ts hts
+    exact ⟨a, h7.trans b⟩
+  · intro hne
+    refine ⟨?_, _, (h14 hne).1, (h14 hne).2⟩
+    cases hc : s.commodity with
+    | none => exact absurd (h12 hc) hne
+    | some _ => rfl
+  · intro hst heq
+    by_cases hm : f.equityAccount ∈ f.accounts
+    · exact hm
+    · exact absurd ⟨hst, heq, hm⟩ h11
+  · intro hst n hn
+    rw [h8] at hst
+    rw [hst, hn] at h4
+    have hsrc : c.reportCommodity = some n ∨ (c.reportCommodity = none ∧ f.commodity = some n) := by
+      have hw := (cli_wins h).2.2.2.2.1
+      have hfa := (file_applies h).2.2.2.2.1
+      simp only [mkEffective] at hw hfa
+      cases hc : c.reportCommodity with
+      | some v => left; have := hw v hc; rw [hn] at this; cases this; rfl
+      | none => right; exact ⟨rfl, by rw [← hfa hc]; exact hn⟩
+    have hsim : isSimpleId n = true := by
+      unfold namesSimple at hsimple
+      simp only [Bool.and_eq_true] at hsimple
+      rcases hsrc with hc | ⟨_, hf⟩
+      · have := hsimple.2; rw [hc] at this; exact this
+      · have := hsimple.1.2; rw [hf] at this; exact this
+    have hne : n ≠ "" := by
+      intro h0; subst h0; simp [isSimpleId] at hsim
+    exact reportCommodityOf_strict h4 hne
+
 end C19
 end Tackler
